@@ -223,8 +223,11 @@ template<class TableT, class HashF> struct Rig
          case O_AssignFrom: t = o; blk[0] = blk[1]; return 0;
          case O_AssignTo: o = t; blk[1] = blk[0]; return 0;
          case O_PutAll: return t.Put(o).IsOK() ? 1 : NA;
-         case O_MoveToTable: {const VT * pv = t.Get(ownA); const int v0 = pv ? VI(*pv) : 0; const status_t r = t.MoveToTable(ka, o);
-                              if ((r.IsOK())&&(v0 != 0)) for (int i=0; i<MAXIT; i++) if ((it[i])&&(it[i]->HasData())&&(it[i]->GetKey() == ownA)&&(VI(it[i]->GetValue()) == 0)) {plKey[i] = KI(ownA); plVal[i] = v0; plundered++;}
+         case O_MoveToTable: {const VT * pv = t.Get(ownA); const int v0 = pv ? VI(*pv) : 0; bool onIt[MAXIT];
+                              // only an iterator that shows the entry's value NOW can lose it to this call (one that already holds an emptied copy from an earlier MoveToTable keeps its bookkeeping)
+                              for (int i=0; i<MAXIT; i++) onIt[i] = (v0 != 0)&&(it[i])&&(it[i]->HasData())&&(it[i]->GetKey() == ownA)&&(VI(it[i]->GetValue()) == v0);
+                              const status_t r = t.MoveToTable(ka, o);
+                              if (r.IsOK()) for (int i=0; i<MAXIT; i++) if ((onIt[i])&&(it[i]->HasData())&&(it[i]->GetKey() == ownA)&&(VI(it[i]->GetValue()) == 0)) {plKey[i] = KI(ownA); plVal[i] = v0; plundered++;}
                               return St(r);}
          case O_CopyToTable: return St(t.CopyToTable(ka, o));
          case O_Self: switch(a) {        // the table is its own argument
